@@ -48,7 +48,17 @@ let sched_callback codes =
     last := (hist, n);
     if n - 1 < Array.length codes then codes.(n - 1) else Z0
 
-let codes_of sched = if sched = "-" then [] else List.map z_of_string (split_on ',' sched)
+(* SCHED := CODES { "@f" INT | "@a" N }: the codes, the future_flags argument (default 0), the
+   kind of user argument the C driver passes (no meaning for the model) *)
+let sched_parts sched =
+  match String.split_on_char '@' sched with
+  | codes :: opts ->
+    let ff = List.fold_left (fun acc o ->
+        if String.length o > 1 && o.[0] = 'f' then z_of_string (String.sub o 1 (String.length o - 1)) else acc) Z0 opts in
+    (codes, ff)
+  | [] -> ("-", Z0)
+let codes_of sched = let (c, _) = sched_parts sched in if c = "-" then [] else List.map z_of_string (split_on ',' c)
+let ff_of sched = snd (sched_parts sched)
 
 (* line := PROG { ";" PROG };  PROG := TREE SCHED { "(" K PROG ")" };  TREE "=" = the tree of the
    enclosing traversal *)
@@ -63,7 +73,7 @@ let rec parse_prog parent toks =
         (match rest with ")" :: rest -> nested ((z_of_string k, q) :: acc) rest | _ -> failwith "visit: )")
       | rest -> (List.rev acc, rest) in
     let (ns, rest) = nested [] rest in
-    (Prog (v, codes_of sched, ns), rest)
+    (Prog (v, ff_of sched, codes_of sched, ns), rest)
   | _ -> failwith "visit line"
 
 let run line =
@@ -71,7 +81,7 @@ let run line =
   | [tree; sched] ->
     let v = Jvtext.jv_of_string tree in
     let userfunc = sched_callback (Array.of_list (codes_of sched)) in
-    let model = show (json_c_visit userfunc v) in
+    let model = show (json_c_visit_ff userfunc v (ff_of sched)) in
     (* the extracted reference traversal is run alongside as a cross-check of the glue (the
        theorem says they agree); skipped on the large size-family inputs to halve their cost *)
     if String.length tree > 1500 then model else
